@@ -30,14 +30,19 @@ StepBound == 600000
 \* ---- comparing an observed response item with a specified one
 CodeOK(want, got) == IF want = AnyErr THEN got \notin {EInternal, EBreak} ELSE want = got
 LineOK(want, got) == want = LineUnspec \/ want = got
-ErrsOK(spec, obs) ==   \* spec: set of [code, ln]; obs: sequence of records with code, line
-  /\ \A e \in spec : \E i \in DOMAIN obs : CodeOK(e.code, obs[i].code) /\ LineOK(e.ln, obs[i].line)
-  /\ \A i \in DOMAIN obs : \E e \in spec : CodeOK(e.code, obs[i].code) /\ LineOK(e.ln, obs[i].line)
+\* where the specification fixes the character range of a diagnostic (c0 >= 0) it must be that
+ColsOK(e, o) == ("c0" \in DOMAIN e /\ e.c0 >= 0) => (e.c0 = o.c0 /\ e.c1 = o.c1)
+ErrOK(e, o) == CodeOK(e.code, o.code) /\ LineOK(e.ln, o.line) /\ ColsOK(e, o)
+ErrsOK(spec, obs) ==   \* spec: set of [code, ln (, c0, c1)]; obs: sequence of records with code, line, c0, c1
+  /\ \A e \in spec : \E i \in DOMAIN obs : ErrOK(e, obs[i])
+  /\ \A i \in DOMAIN obs : \E e \in spec : ErrOK(e, obs[i])
 ItemOK(a, b) ==
   /\ a.k = b.k
   /\ CASE a.k = "out" -> a.s = b.s
        [] a.k = "err" -> ErrsOK(a.errs, b.errs)
-       [] a.k = "list" -> a.ln = b.ln /\ a.text = b.s
+       [] a.k = "list" -> /\ a.ln = b.ln /\ a.text = b.s
+                          \* the underlined ranges are those of the line's diagnostics
+                          /\ (\A rg \in a.cols : rg[1] >= 0) => a.cols = {<<b.cols[i][1], b.cols[i][2]>> : i \in DOMAIN b.cols}
        [] a.k = "input" -> a.s = b.s /\ a.caps = b.caps
        [] OTHER -> TRUE
 RespOK(spec, obs) == Len(spec) = Len(obs) /\ \A i \in 1..Len(spec) : ItemOK(spec[i], obs[i])
@@ -122,7 +127,18 @@ Intr == /\ ph = "run" /\ m.mode = "run" /\ nint < Cur.ints
         /\ UNCHANGED <<ci, l, ph, hi, nst>>
 
 AtWait == ph = "run" /\ m.mode \in {"ready", "input"}
-Good  == nint = Cur.ints /\ RespOK(m.resp, Cur.resp) /\ ProbeOK(m, Cur.probe, loose)
+\* every compile-time diagnostic names an existing line (or the direct line) and a character
+\* range inside that line's listed text
+DiagOK(mm, spec, obs) ==
+  \A i \in 1..Len(spec) :
+    (spec[i].k = "err" /\ i <= Len(obs) /\ obs[i].k = "err" /\ \E e \in spec[i].errs : "c0" \in DOMAIN e) =>
+       \A j \in DOMAIN obs[i].errs :
+         LET o == obs[i].errs[j] IN
+         /\ o.c0 >= 0 /\ o.c0 <= o.c1
+         /\ IF o.line < 0 THEN o.c1 <= Len(ShowStmts(mm.dirsrc, 1))
+            ELSE o.line \in DOMAIN mm.src /\ o.c1 <= Len(ShowLine(o.line, mm.src[o.line]))
+Good  == /\ nint = Cur.ints /\ RespOK(m.resp, Cur.resp) /\ ProbeOK(m, Cur.probe, loose)
+         /\ DiagOK(m, m.resp, Cur.resp)
 
 Match == /\ AtWait /\ Good
          /\ l' = l + 1 /\ ph' = "feed" /\ UNCHANGED <<ci, m, nint, hi, loose, nst>>
